@@ -282,6 +282,9 @@ func (update *Update) UnmarshalJSON(bts []byte) error {
 	if err := json.Unmarshal(bts, &c); err != nil {
 		return err
 	}
+	if c.SignedAccumulator == nil {
+		return errors.New("update without accumulator")
+	}
 	update.uncompress(&c)
 	return nil
 }
@@ -295,6 +298,9 @@ func (update *Update) UnmarshalCBOR(data []byte) error {
 	if err := cbor.Unmarshal(data, &c); err != nil {
 		return err
 	}
+	if c.SignedAccumulator == nil {
+		return errors.New("update without accumulator")
+	}
 	update.uncompress(&c)
 	return nil
 }
@@ -304,6 +310,9 @@ func (update *Update) UnmarshalCBOR(data []byte) error {
 // - the accumulator includes the hash of the last item in the hash chain
 // - the hash chain is valid (each chain item has the correct hash of its parent).
 func (update *Update) Verify(pk *gabikeys.PublicKey) (*Accumulator, error) {
+	if update.SignedAccumulator == nil {
+		return nil, errors.New("update without accumulator")
+	}
 	acc, err := update.SignedAccumulator.UnmarshalVerify(pk)
 	if err != nil {
 		return nil, err
@@ -402,6 +411,15 @@ type compressedEventList struct {
 	E          []*big.Int `json:"e"`
 }
 
+func (c *compressedEventList) validate() error {
+	for _, e := range c.E {
+		if e == nil {
+			return errors.New("event list contains an event without revocation attribute")
+		}
+	}
+	return nil
+}
+
 func (el *EventList) compress() *compressedEventList {
 	c := compressedEventList{}
 	if len(el.Events) == 0 {
@@ -453,6 +471,9 @@ func (el *EventList) UnmarshalJSON(bts []byte) error {
 	if err != nil {
 		return err
 	}
+	if err = c.validate(); err != nil {
+		return err
+	}
 	el.uncompress(&c)
 	return nil
 }
@@ -465,6 +486,9 @@ func (el *EventList) UnmarshalCBOR(bts []byte) error {
 	var c compressedEventList
 	err := cbor.Unmarshal(bts, &c)
 	if err != nil {
+		return err
+	}
+	if err = c.validate(); err != nil {
 		return err
 	}
 	el.uncompress(&c)
@@ -485,6 +509,11 @@ func (el *EventList) Verify(acc *Accumulator) error {
 			return el.validationErr
 		}
 		return nil
+	}
+	for _, event := range events {
+		if event == nil || event.E == nil {
+			return errors.New("event list contains an event without revocation attribute")
+		}
 	}
 	if err = events[count-1].hashEquals(acc.EventHash); err != nil {
 		return errors.WrapPrefix(err, "update chain has wrong hash", 0)
